@@ -124,6 +124,16 @@ func (sc *Scenario) argv() []string {
 	return args
 }
 
+// argvForDisplay is argv with the (randomly named) scratch directory abstracted away, so that
+// reports and samples are the same in every process.
+func (sc *Scenario) argvForDisplay() []string {
+	args := sc.argv()
+	for i, a := range args {
+		args[i] = strings.ReplaceAll(a, scratch(), "$SCRATCH")
+	}
+	return args
+}
+
 func (sc *Scenario) Run() (res Result) {
 	in := simio.NewReader([]byte(sc.Stdin), sc.Plan)
 	out, errw := simio.NewWriter(sc.WriteFail), simio.NewWriter(-1)
